@@ -6,7 +6,7 @@ CHECK = {
     "flavours": ["asan"],
     "quick": {"shards": 8, "timeout": 900},
     "thorough": {"shards": 16, "timeout": 3600},
-    "required_categories": ["a_smart_rotation", "b_pose_covariance", "b_rank_deficient_covariance",
+    "required_categories": ["a_smart_rotation", "a_reinitialised_object", "a_fresh_object", "b_pose_covariance", "b_rank_deficient_covariance",
                             "b_identity_transform_and_attitude", "c_ls_covariance_float", "c_ls_covariance_double",
                             "c_later_problem_on_reused_solver", "c_path_svd", "c_path_cholesky", "c_path_weighted"],
     "required_oracles": ["a.dRTdAngles_is_matrix_times_vector", "a.R_is_RzRyRx", "b.symmetric", "b.positive_semidefinite",
